@@ -147,6 +147,7 @@ func plainSlot[M any](k int, h *busHarness, rid int) eb.Handler[Ev[M]] {
 		return func(e Ev[M]) { h.onHandler(rid, e.P, nil, 3) }
 	}
 }
+
 //go:noinline
 func ctxSlot[M any](k int, h *busHarness, rid int) eb.ContextHandler[Ev[M]] {
 	switch k {
@@ -296,6 +297,7 @@ type busHarness struct {
 	cancels map[int]context.CancelFunc
 	isCanc  map[int]bool
 	ridStk  map[int64][]int // innermost handler per goroutine (for panics)
+	inside  map[int]int     // running invocations per registration
 	tokStk  map[int64][]int // open observability starts per goroutine
 	nextTok int
 	store   *hStore
@@ -392,13 +394,19 @@ func (h *busHarness) onHandler(rid, p int, ctx context.Context, slot int) {
 	bind := func() (who, bool) { return who{p: p, rid: rid}, true }
 	h.mu.Lock()
 	h.ridStk[g] = append(h.ridStk[g], rid)
+	overlap := h.regs[rid].sp.seq && h.inside[rid] > 0 // invocations of a Sequential handler must never overlap
+	h.inside[rid]++
 	h.mu.Unlock()
 	defer func() {
 		h.mu.Lock()
 		h.ridStk[g] = h.ridStk[g][:len(h.ridStk[g])-1]
+		h.inside[rid]--
 		h.mu.Unlock()
 		lastPopped.Store(g, rid)
 	}()
+	if overlap {
+		cref = ctxT(996)
+	}
 	lbl := C("LEnter", Nat(p), Nat(rid), cref)
 	if h.store != nil && h.prog.pfaults[h.pubVal[p]] == "" && !h.store.has(p) {
 		lbl = C("LEnter", Nat(p), Nat(rid), ctxT(998)) // the record must be readable before any handler runs
@@ -545,7 +553,7 @@ func (s *hStore) Close() error {
 func newBusHarness(prog *busProgram) *busHarness {
 	h := &busHarness{prog: prog, regs: map[int]regInfo{}, pubType: map[int]int{}, pubVal: map[int]int{},
 		ctxs: map[int]context.Context{}, cancels: map[int]context.CancelFunc{}, isCanc: map[int]bool{},
-		ridStk: map[int64][]int{}, tokStk: map[int64][]int{}}
+		ridStk: map[int64][]int{}, tokStk: map[int64][]int{}, inside: map[int]int{}}
 	h.ctl = newController()
 	for c := 1; c <= 3; c++ {
 		ctx, cancel := context.WithCancel(context.WithValue(context.Background(), ctxKey{}, c))
